@@ -36,6 +36,7 @@ type partition struct {
 
 	raft           *raft.RaftGroup
 	wal            wal.WAL
+	raftWalDB      *badger.DB
 	raftTransport  *raft.RaftTransport
 	datasetManager *DatasetManager
 	raftMu         *sync.RWMutex
@@ -67,6 +68,7 @@ func newPartition(id uuid.UUID, meta *pb.Partition, dataset *Dataset, raftWalDB 
 		index:          newIndexFromDatasetProto(dataset.Meta()),
 		raft:           nil,
 		wal:            wal.NewBadgerWAL(raftWalDB, id),
+		raftWalDB:      raftWalDB,
 		raftTransport:  raftTransport,
 		datasetManager: datasetManager,
 		raftMu:         &sync.RWMutex{},
@@ -106,6 +108,11 @@ func (this *partition) loadRaft(nodeIds []uint64) error {
 	defer this.raftMu.Unlock()
 
 	var err error
+	if this.raftWalDB != nil {
+		// unloadRaft deleted the group's store, including the marker entry a store
+		// writes when it is created: open the store anew for every load
+		this.wal = wal.NewBadgerWAL(this.raftWalDB, this.id)
+	}
 	this.raft, err = raft.NewRaftGroup(this.id, nodeIds, this.wal, this.raftTransport)
 	if err != nil {
 		return err
@@ -137,6 +144,13 @@ func (this *partition) unloadRaft() error {
 	this.raft.Stop()
 	this.wal.DeleteGroup()
 	this.raft = nil
+	// The log store is gone: if this node is made a replica again it is sent the
+	// log from its beginning (or a snapshot). Replaying that onto the items of
+	// the previous membership would not give the leader's contents (an update
+	// that failed on the leader succeeds on a stale item), so they go as well.
+	if err := this.processSnapshot(nil); err != nil {
+		this.log.Errorf("Failed to reset the index: %v", err)
+	}
 	this.log.Info("Unloaded Raft")
 	return nil
 }
